@@ -45,6 +45,13 @@ D4 == [cattrs |-> <<"InnerClasses", "Deprecated", "NestMembers">>,
                        code |-> <<"LocalVariableTypeTable", "LineNumberTable", "Xc">>] >>,
        rcs |-> <<>>]
 
+D5 == [cattrs |-> <<"NestHost", "RuntimeInvisibleTypeAnnotations", "EnclosingMethod">>,
+       fields |-> << <<"RuntimeVisibleAnnotations", "ConstantValue", "Signature">>, <<"Deprecated">> >>,
+       methods |-> << [attrs |-> <<"RuntimeInvisibleParameterAnnotations", "Exceptions", "RuntimeInvisibleAnnotations">>, code |-> <<>>],
+                      [attrs |-> <<"Code", "Signature", "Deprecated">>,
+                       code |-> <<"StackMapTable", "RuntimeVisibleTypeAnnotations", "LineNumberTable">>] >>,
+       rcs |-> <<>>]
+
 LenOf(name) ==
     CASE name \in {"Deprecated", "Synthetic"} -> 0
       [] name \in {"SourceFile", "Signature", "ConstantValue", "NestHost"} -> 2
@@ -110,7 +117,7 @@ Dummy == InitState(<<>>, MaskAll, NoDeclines)
 Init == stage = "shape" /\ fam = "" /\ descs = <<>> /\ mdesc = MDesc("all", {}) /\ consumer = "" /\ m = Dummy
 
 MaskShapes == IF Tier = 0 THEN {RotDesc(D1, r) : r \in 0..2} \cup {RotDesc(D2, r) : r \in 0..2}
-              ELSE {RotDesc(d, r) : d \in {D1, D2, D4}, r \in 0..2}
+              ELSE {RotDesc(d, r) : d \in {D1, D2, D4, D5}, r \in 0..2}
 ConcatShapes == {D1, RotDesc(D2, 1), D3}
 Streams == IF Tier = 0 THEN {<<a, b>> : a \in ConcatShapes, b \in ConcatShapes} \cup {<<D3, D1, RotDesc(D2, 1)>>, <<D1, D1, D3>>}
            ELSE {<<a, b>> : a \in ConcatShapes, b \in ConcatShapes} \cup {<<a, b, c>> : a \in ConcatShapes, b \in ConcatShapes, c \in ConcatShapes}
@@ -185,7 +192,7 @@ SetSeq(S) == SetToSortSeq(S, <)
 DJson(D) == [classes |-> SetSeq(D.classes), fields |-> SetSeq(D.fields), methods |-> SetSeq(D.methods),
              codes |-> SetSeq(D.codes), rcs |-> SetSeq(D.rcs)]
 MJson(md) == [base |-> md.base, flip |-> SetToSeq(md.flip)]
-Observed(k) == ConsumerView(consumer, m.events[k])
+Observed(k) == Items(ConsumerView(consumer, m.events[k]))
 
 Emit ==
     /\ (Done /\ fam = "mask") =>
@@ -194,7 +201,7 @@ Emit ==
                          exp |-> [skeleton |-> Skel(Observed(1)), masked |-> [ok |-> TRUE, rest |-> 0]]]))
     /\ (Done /\ fam = "mask" /\ consumer = "rec") =>
           PrintT(ToJson([op |-> "accept", cls |-> [shape |-> descs[1]], mask |-> MJson(mdesc), declines |-> DJson(m.declines),
-                         exp |-> [replay |-> [ok |-> TRUE, skeleton |-> Skel(AcceptEvents(m.file[1], m.mask, m.declines, 1))],
+                         exp |-> [replay |-> [ok |-> TRUE, skeleton |-> Skel(Items(AcceptEvents(m.file[1], m.mask, m.declines, 1)))],
                                   tree_equal |-> TRUE]]))
     /\ (Done /\ fam = "concat") =>
           PrintT(ToJson([op |-> "concat", classes |-> [i \in DOMAIN descs |-> [shape |-> descs[i]]], mask |-> MJson(mdesc),
